@@ -76,8 +76,11 @@ def make_volume(vol, impl, t0=0.0):
         v = StochasticTimeThresholdVolume(vol['cycle'], vol['divvol'], vol['noise'])
         if vol.get('reused'):
             # the same object served another cell before (earlier start, other volume): only the last initialisation counts
+            # (twice: a cycle that lay in the past and one whose division time is a positive number)
             with Stream(list(RS.bm_pair(0.7))):
                 v.py_initialize(state, params, t0 - 3.0, vol['V0'] * 0.6)
+            with Stream(list(RS.bm_pair(-0.4))):
+                v.py_initialize(state, params, t0 + 1.0, vol['V0'] * 0.8)
         with Stream(script) as st:
             v.py_initialize(state, params, t0, vol['V0'])
         rate = math.log(2.0) / vol['cycle']
